@@ -2021,4 +2021,17 @@ theorem arffLines_written (q : Nat) (hq : q = SQ ∨ q = DQ) (also : Nat → Boo
         (Or.inr ⟨hst, hd, by cases r.2.any tokQuoted <;> simp [hqc]⟩)]
 
 
+
+/-- the reader only sees the delivered lines through "strip the terminators, drop the empty ones" -/
+theorem csv_roundtrip_framing' (delim : Nat) (hasHeader : Bool) (rows : List (List (Bool × Text)))
+    (hok : ∀ r ∈ rows, csvRowOk r = true) (hd1 : delim ≠ DQ) (hd2 : isNl delim = false) (delivered : List Text)
+    (hdel : (delivered.map rstripNl).filter (· ≠ []) = rows.map (csvWriteRow delim)) :
+    csvReaderFix (excel delim) hasHeader delivered =
+      match rows.map (·.map (·.2)) with
+      | [] => .ok (none, [])
+      | first :: rest => if hasHeader then .ok (some first, rest) else .ok (none, first :: rest) := by
+  unfold csvReaderFix
+  rw [hdel, csvRecords_rows delim rows hok hd1 hd2]
+  cases rows.map (·.map (·.2)) <;> rfl
+
 end Coba.C12
